@@ -100,6 +100,8 @@ func zzStorageWF() {
 	zzverif.WFKey("storage", "StoragePaymentInfo", "StoragePaymentInfo/value/", "$Address", "/")
 	zzverif.WFKey("storage", "UnifiedFile", "FilesByMerkle/value/", "hex:$Merkle", "/", "$Owner", "/", "dec:$Start", "/")
 	zzverif.WFKey("storage", "UnifiedFile", "FilesByOwner/value/", "$Owner", "/", "hex:$Merkle", "/", "dec:$Start", "/")
+	// ProofInterval is a copy of the (validated > 1) ProofWindow parameter at posting time
+	zzverif.WF("UnifiedFile", "pos:ProofInterval", "nonneg:Start")
 	zzverif.WFKey("storage", "FileProof", "FileProof/value/", "$Prover", "/", "$Owner", "/", "hex:$Merkle", "/", "dec:$Start", "/")
 	zzverif.WFKey("rns", "Names", "Names/value/", "$Name", ".", "$Tld", "/")
 	zzverif.WFAddr("Names", "Value")
